@@ -198,6 +198,10 @@ def plan_improve(ws, complete):
                 if q not in junc and d.get(q) == 1 and find(q) == find(p):
                     on_end.append({'junction': junc[p], 'at': nodes[p]['pt'], 'connector_end_of': [c for a, b, c, f in edges if q in (a, b)]})
     sec.info['junction_on_connector_end'] = on_end
+    # connector ends (leaves that carry no junction) are anchored at their terminal: the place they have in the tree as built
+    # must be the place of every later record that names them (HyperedgeTreeNode::isImmovable: a node with one edge)
+    leaf_pt = {p: nodes[p]['pt'] for p in leaves if p not in junc}
+    leaf_term = leaf_terminals(nodes, edges, conns_before)
     sec.add('SEG %s %d %s' % (edge_cmd(nm, edges), len(leaves), ' '.join(str(nm.get(p)) for p in leaves)), what='before',
             edges=[(nm.get(a), nm.get(b), c) for a, b, c, f in edges])
     compound = None      # (kind, self, target, ncommon, nother, folds done)
@@ -230,6 +234,11 @@ def plan_improve(ws, complete):
             if (w[5], w[6]) != (w[7], w[8]):
                 sec.static.append({'kind': 'geom_contract', 'what': 'removeZeroLengthEdges contracts an edge whose ends are at different places (precondition "zero length")',
                                    'record': rec_text(w)})
+            for q, xy in ((tgt, (float(w[5]), float(w[6]))), (src, (float(w[7]), float(w[8])))):
+                if q in leaf_pt and leaf_pt[q] != xy:
+                    sec.static.append({'kind': 'leaf_displaced', 'what': 'a connector end (leaf of the hyperedge tree, anchored at its terminal) has been moved by the segment '
+                                       'shifting before this contraction: the contraction happens away from the terminal', 'diverging_op': rec_text(w),
+                                       'leaf_position_in_tree_as_built': leaf_pt[q], 'position_at_contraction': xy, 'leaf_terminal': leaf_term.get(q)})
             if src in junc:
                 sec.static.append({'kind': 'junction_lost', 'what': 'the absorbed node of a contraction still carries a junction (junction lost without JJMERGE)', 'record': rec_text(w),
                                    'junction': junc[src]})
@@ -339,6 +348,10 @@ def plan_improve(ws, complete):
     if ajunc != junc:
         sec.static.append({'kind': 'junction_bookkeeping', 'what': 'junction placement after the replayed moves differs from the AFTER tree (unlogged junction change)',
                            'replayed': sorted(junc.values()), 'after': sorted(ajunc.values())})
+    for q, xy in leaf_pt.items():
+        if q in anodes and anodes[q]['pt'] != xy and not any(pr.get('kind') == 'leaf_displaced' for pr in sec.static):
+            sec.static.append({'kind': 'leaf_displaced', 'what': 'a connector end (leaf of the hyperedge tree, anchored at its terminal) is at a different place in the AFTER tree',
+                               'leaf_position_in_tree_as_built': xy, 'position_after': anodes[q]['pt'], 'leaf_terminal': leaf_term.get(q)})
     sec.info['after'] = {'ids': {p: nm.get(p) for p in anodes}, 'nodes': anodes, 'edges': aedges}
     sec.info['terminals_after'] = sorted(str(t) for t in leaf_terminals(anodes, aedges, conns_after).values())
     return sec
